@@ -806,7 +806,8 @@ func replay(c *mcx.Ctx, raw json.RawMessage) (string, string) {
 func init() {
 	mcx.Register(&mcx.Driver{
 		ID: "C01", Run: run, Replay: replay,
-		Rule: "full product: layout shape (1 step; 2 steps; 2 steps without any inspection; thorough: + root CAs and certificate constraints - each with a marker inspection) x {legacy, DSSE} x {InTotoVerify, InTotoVerifyWithDirectory} x [ all 8 signer subsets of {RSA, ECDSA, Ed25519} x all 16 verifier subsets of those plus a foreign key, unaltered; " +
+		Rule: "also: a signature entry whose sig is not a string of the wrapper's encoding; next to the genuine key a key of other material carrying the genuine key-id field under another map index; " +
+			"full product: layout shape (1 step; 2 steps; 2 steps without any inspection; thorough: + root CAs and certificate constraints - each with a marker inspection) x {legacy, DSSE} x {InTotoVerify, InTotoVerifyWithDirectory} x [ all 8 signer subsets of {RSA, ECDSA, Ed25519} x all 16 verifier subsets of those plus a foreign key, unaltered; " +
 			"every single-point alteration of the signed content found by a reflective walk (string changed, slice element dropped/duplicated/appended, map entry dropped/added, int +-1), applied to the in-memory object (also after a first, accepted verification of that object) and to the file under the old signatures; " +
 			"signature-list alterations (entry dropped, first/middle/last byte corrupted, signature of another layout by the same key, emptied, key ids / signatures of two entries swapped, duplicate entry, empty list); supplied-key alterations (same id with foreign material, extra key that did not sign, map key differs, private half supplied, no key map at all); wrapper-document alterations (a second content member - signed / payload - with forged step-less content and an inspection of its own, named like the genuine one up to letter case: 3 spellings of the genuine x 3 of the forged x before/after) ]; " +
 			"each case under every order of the layout-key loop and with a complete, an empty and a garbage link directory. non-trivial = at least one verifier key or an alteration. states = cases, transitions = verifications.",
